@@ -177,6 +177,7 @@ fn run(c: &Case, out: &mut Out) {
     // flow key -> (replies so far, requests so far); a key is the client address (4-tuple) or its IP (2-tuple)
     let mut live: HashMap<String, (u32, u32, usize, SocketAddr, i128, SocketAddr)> = HashMap::new(); // + backend index, upstream peer, owner client, its address
     let mut sent_by: HashMap<i128, Vec<Vec<u8>>> = HashMap::new();
+    let mut peers: Vec<SocketAddr> = vec![];   // upstream sockets in order of first appearance at a backend
     for op in &c.ops {
         let a = &op.args;
         match op.name.as_str() {
@@ -282,7 +283,8 @@ fn run(c: &Case, out: &mut Out) {
                     }
                 }
                 let total_new: usize = backends.iter().enumerate().map(|(bi, b)| b.seen.lock().unwrap().len() - before[bi]).sum();
-                let mut obs = vec![ts("send"), tn(ci), tbool(admitted)];
+                // pure observations, compared with the shell model (coq/C19/ShellRun.v)
+                let (mut o_bi, mut o_sock, mut o_reply): (i128, i128, i128) = (-1, -1, -1);
                 match (&hit, admitted) {
                     (None, true) if bounced => out.viol("e2e-reactivated-listener-dead", &format!("client {ci}: after DeactivateListener + ActivateListener (both answered Ok) the UDP listener forwards nothing: datagram of an admissible flow (live={} cap={cap}) never reached a backend", live.len())),
                     (None, true) => out.viol("e2e-bounded", &format!("client {ci} ({me}): datagram of an admissible flow (live={} cap={cap}) never reached a backend", live.len())),
@@ -321,7 +323,14 @@ fn run(c: &Case, out: &mut Out) {
                         }
                         live.insert(key.clone(), (0, 0, *bi, s.peer, ci, me));
                     }
-                    obs.push(tn(*bi));
+                    o_bi = *bi as i128;
+                    o_sock = match peers.iter().position(|p| *p == s.peer) {
+                        Some(k) => k as i128,
+                        None => {
+                            peers.push(s.peer);
+                            peers.len() as i128 - 1
+                        }
+                    };
                     let f = live.get_mut(&key).unwrap();
                     f.1 += 1;
                     let owner = f.4;
@@ -334,19 +343,26 @@ fn run(c: &Case, out: &mut Out) {
                     // proxy drops it as truncated, by design
                     if want.len() > 1500 {
                         if recv_one(&clients[&owner], QUIET).is_some() {
+                            o_reply = owner;
                             out.viol("e2e-isolated", &format!("client {owner}: a {}-byte reply above max_rx_datagram_size was returned", want.len()));
                         }
                     } else if !exhausted_by_request {
                         match recv_one(&clients[&owner], rt()) {
                             None => out.viol("e2e-isolated", &format!("client {ci}: no reply came back from backend {bi} to the flow's client {owner}")),
-                            Some(r) if r != want => out.viol("e2e-isolated", &format!("client {owner}: received a reply that is not the echo of the datagram just forwarded on its flow")),
-                            _ => {}
+                            Some(r) => {
+                                o_reply = owner;
+                                if r != want {
+                                    out.viol("e2e-isolated", &format!("client {owner}: received a reply that is not the echo of the datagram just forwarded on its flow"));
+                                }
+                            }
                         }
                         f.0 += 1;
+                    } else if recv_one(&clients[&owner], QUIET).is_some() {
+                        // closed by its requests cap before the reply can come back
+                        o_reply = owner;
                     }
                     if (responses != 0 && f.0 >= responses) || exhausted_by_request {
                         live.remove(&key);
-                        obs.push(ts("closed"));
                     }
                 }
                 // nobody else may have received anything
@@ -361,7 +377,7 @@ fn run(c: &Case, out: &mut Out) {
                 if worker.as_ref().map_or(false, |w| w.job.is_finished()) {
                     out.viol("e2e-worker-died", "the worker thread terminated (panic / failed assertion) while serving UDP traffic");
                 }
-                out.obs(&obs);
+                out.obs(&[ts("send"), tn(ci), tbool(hit.is_some()), Tok::N(o_bi), Tok::N(o_sock), Tok::N(o_reply)]);
             }
             "sleep" => {
                 thread::sleep(Duration::from_millis(a[0].n() as u64));
